@@ -22,6 +22,7 @@ SIG_NORESET = "formulate() does not start from empty ingredients"
 SIG_SHARED = "configuration of one builder leaks into another builder"
 SIG_HASHSEED = "outer PoolSum pool order depends on PYTHONHASHSEED (set of sp.Rational)"
 SIG_KINORDER = "kinematic_variables key order depends on the topology-set iteration order (natural_sorting tie)"
+SIG_AMPORDER = "amplitudes key order depends on a set iteration order (natural_sorting ties among zero-defined amplitudes)"
 SIG_GENERIC = "same (reaction, configuration), different model"
 
 
@@ -112,20 +113,33 @@ def covering_seeds(candidates: list[str], reactions: list[str], limit: int) -> t
         if "fingerprint" in r:
             fps[s] = {k: json.dumps(v) for k, v in r["fingerprint"].items()}
     universe = {(k, v) for fp in fps.values() for k, v in fp.items()}
+    variants: dict[str, set] = {}
+    for k, v in universe:
+        variants.setdefault(k, set()).add(v)
     picked: list[str] = []
     covered: set = set()
-    while covered != universe and len(picked) < limit:
-        best = max(fps, key=lambda s: len(set(fps[s].items()) - covered))
+
+    def orders_covered(k):
+        return len({v for (kk, v) in covered if kk == k})
+
+    # first goal: every container whose order varies is seen in >= 2 different orders
+    def gain2(s):
+        return sum(1 for k, v in fps[s].items() if (k, v) not in covered and orders_covered(k) < min(2, len(variants[k])))
+
+    while len(picked) < limit and fps:
+        best = max(fps, key=lambda s: (gain2(s), len(set(fps[s].items()) - covered)))
         gain = set(fps[best].items()) - covered
-        if not gain:
+        if not gain or best in picked:
             break
         picked.append(best)
         covered |= gain
-    variants = {}
-    for k, v in universe:
-        variants.setdefault(k, set()).add(v)
-    return picked, {"seeds_scanned": len(fps), "containers_with_seed_dependent_order": sorted(k for k, v in variants.items() if len(v) > 1),
-                    "covered": covered == universe}
+        if all(orders_covered(k) >= min(2, len(variants[k])) for k in variants) and len(picked) >= 2:
+            break
+    return picked, {"seeds_scanned": len(fps),
+                    "containers_with_seed_dependent_order": sorted(k for k, v in variants.items() if len(v) > 1),
+                    "orders_observed_in_scan": {k: len(v) for k, v in sorted(variants.items())},
+                    "orders_covered_by_picked_seeds": {k: orders_covered(k) for k in sorted(variants)},
+                    "two_orders_for_every_varying_container": all(orders_covered(k) >= min(2, len(variants[k])) for k in variants)}
 
 
 def differing_attributes(d1: dict, d2: dict) -> list[str]:
@@ -140,6 +154,8 @@ def classify(d1: dict, d2: dict, same_process: bool) -> dict:
     if (not same_process and attrs == ["intensity"]
             and d1.get("intensity_sorted_pools") == d2.get("intensity_sorted_pools")):
         return {"class": SIG_HASHSEED}
+    if attrs == ["amplitudes"] and d1.get("amp_unordered") is not None and d1.get("amp_unordered") == d2.get("amp_unordered"):
+        return {"class": SIG_AMPORDER}
     if attrs == ["kinematic_variables"] and d1.get("kin_unordered") == d2.get("kin_unordered"):
         return {"class": SIG_KINORDER}
     return {"class": SIG_GENERIC, "attributes": attrs}
